@@ -416,7 +416,9 @@ fn soft_keywords_named(cx: &mut Ctx, rule: &str, lookahead: bool) {
         cx.fail(rule, &format!("{}/source", rule), &sk.loc(nx), "the returned token is not underlying.next() (possibly re-tagged)");
     }
     if lookahead {
-        soft_keyword_lookahead(cx, &sk, nx, &format!("{}b", rule));
+        let _ = soft_keyword_lookahead;
+        let r3 = if rule == "C01.S1" { "C01.S2".to_string() } else { format!("{}b", rule) };
+        soft_keyword_decisions(cx, &r3, if cx.tier == "thorough" { 5 } else { 4 });
     }
     // start-of-line set: the update of self.start_of_line, interpreted for every token kind
     let want: BTreeSet<String> = ["StartModule", "StartInteractive", "Newline", "Indent", "Dedent"].iter().map(|s| s.to_string()).collect();
@@ -485,6 +487,164 @@ pub fn start_of_line_update(sk: &Src, token: &Src, full_lexer: bool) -> Result<(
         }
     }
     Ok((sets, keeps))
+}
+
+/// C01.S3: the soft-keyword decision, interpreted.
+///
+/// `SoftKeywordTransformer::next` is interpreted (syntax tree, nothing run) with a scripted token source: the first
+/// token is `match` / `case` / `type` at the start of a logical line, followed by every sequence of up to `depth`
+/// token kinds from a small alphabet; the decision (keyword kept / demoted to a name) is compared with the reference
+/// statement of the heuristic:
+///   match/case: keyword iff some `:` at bracket depth 0 is neither the first token after the keyword nor the colon
+///               of a `lambda` seen at depth 0 (lambdas are paired with colons by count), scanning up to the Newline;
+///   type:       keyword iff the next token is a name (or soft keyword) and, scanning on, an `=` occurs at depth 0 of
+///               `[`..`]` before a Newline or any other token at depth 0.
+/// This is independent of how the look-ahead is written (loops, helper functions, flags or counters).
+pub fn soft_keyword_decisions(cx: &mut Ctx, rule: &str, depth: usize) {
+    use crate::eval::{Machine, V};
+    cx.rule(rule, "soft-keyword decision interpreted from SoftKeywordTransformer::next over every token-kind sequence up to the bound (alphabet: name, `:`, `lambda`, `(`, `)`, `[`, `]`, `=`, newline; plus fixed longer lines with braces, nested lambdas and commas): `match`/`case` stay keywords exactly when a `:` at bracket depth 0 remains after pairing each depth-0 `lambda` with one colon and it is not the first token; `type` stays a keyword exactly when a name follows and an `=` is reached at depth 0 of square brackets before the line ends or another depth-0 token intervenes; not at the start of a line they are always names");
+    let sk = match sm::load(&cx.repo, "parser/src/soft_keywords.rs") {
+        Ok(t) => t,
+        Err(e) => return cx.anchor_missing(rule, &e),
+    };
+    let Some((_, nx)) = sk.methods("SoftKeywordTransformer", "next").into_iter().next() else {
+        return cx.anchor_missing(rule, "SoftKeywordTransformer::next");
+    };
+    let alphabet = ["Name", "Colon", "Lambda", "Lpar", "Rpar", "Lsqb", "Rsqb", "Equal", "Newline"];
+    let tokv = |k: &str| V::Tuple(vec![V::Enum(format!("Tok::{}", k)), V::Unit]);
+    // reference semantics
+    let ref_match = |seq: &[&str]| -> bool {
+        let (mut nesting, mut first, mut seen_colon, mut open) = (0i32, true, false, 0u32);
+        for t in seq {
+            match *t {
+                "Newline" => break,
+                "Lambda" if nesting == 0 => open += 1,
+                "Colon" if nesting == 0 => {
+                    if open > 0 {
+                        open -= 1;
+                    } else if !first {
+                        seen_colon = true;
+                    }
+                }
+                "Lpar" | "Lsqb" | "Lbrace" => nesting += 1,
+                "Rpar" | "Rsqb" | "Rbrace" => nesting -= 1,
+                _ => {}
+            }
+            first = false;
+        }
+        seen_colon
+    };
+    let ref_type = |seq: &[&str]| -> bool {
+        if !matches!(seq.first(), Some(&"Name") | Some(&"Type") | Some(&"Match") | Some(&"Case")) {
+            return false;
+        }
+        // the look-ahead cursor has passed the name; the scan continues with the token after it
+        let mut nesting = 0i32;
+        for t in &seq[1..] {
+            match *t {
+                "Newline" => return false,
+                "Equal" if nesting == 0 => return true,
+                "Lsqb" => nesting += 1,
+                "Rsqb" => nesting -= 1,
+                _ if nesting > 0 => {}
+                _ => return false,
+            }
+        }
+        false
+    };
+    let run = |kw: &str, seq: &[&str], start_of_line: bool| -> Result<bool, String> {
+        let cursor = std::cell::Cell::new(0usize);
+        let seq_v: Vec<V> = seq.iter().map(|k| tokv(k)).collect();
+        let kwv = tokv(kw);
+        let methods = |recv: &V, name: &str, _a: &[V]| -> Option<V> {
+            match (recv, name) {
+                (V::Enum(r), "next") if r == "self.underlying" => Some(V::Opt(Some(Box::new(kwv.clone())))),
+                (V::Enum(r), "peek") if r == "self.underlying" => {
+                    let i = cursor.get();
+                    cursor.set(i + 1);
+                    Some(V::Opt(seq_v.get(i).cloned().map(Box::new)))
+                }
+                (V::Unit, n) if n.ends_with("soft_to_name") => Some(V::Enum("Tok::Name".into())),
+                _ => None,
+            }
+        };
+        let mut m = Machine::new(&methods);
+        m.set("self.underlying", V::Enum("self.underlying".into()));
+        m.set("self.start_of_line", V::Bool(start_of_line));
+        match m.eval_fn_body(&nx.block)? {
+            V::Opt(Some(b)) => match *b {
+                V::Tuple(t) => match t.first() {
+                    Some(V::Enum(e)) => Ok(e == &format!("Tok::{}", kw)),
+                    other => Err(format!("result token {:?}", other)),
+                },
+                other => Err(format!("result {:?}", other)),
+            },
+            other => Err(format!("result {:?}", other)),
+        }
+    };
+    let mut n = 0usize;
+    let mut bad: Vec<String> = vec![];
+    let mut check = |kw: &str, seq: &[&str], sol: bool, want: bool, bad: &mut Vec<String>| {
+        n += 1;
+        match run(kw, seq, sol) {
+            Ok(g) if g == want => {}
+            Ok(g) => {
+                if bad.len() < 5 {
+                    bad.push(format!("`{}` followed by {:?} (start of line: {}): {} (expected {})", kw.to_lowercase(), seq, sol, if g { "keyword" } else { "name" }, if want { "keyword" } else { "name" }));
+                }
+            }
+            Err(e) => {
+                if bad.len() < 5 {
+                    bad.push(format!("`{}` followed by {:?}: not interpretable: {}", kw.to_lowercase(), seq, e));
+                }
+            }
+        }
+    };
+    // all sequences up to the bound
+    let mut seqs: Vec<Vec<&str>> = vec![vec![]];
+    let mut frontier: Vec<Vec<&str>> = vec![vec![]];
+    for _ in 0..depth {
+        let mut next = vec![];
+        for s0 in &frontier {
+            for a in alphabet {
+                let mut s1 = s0.clone();
+                s1.push(a);
+                next.push(s1);
+            }
+        }
+        seqs.extend(next.iter().cloned());
+        frontier = next;
+    }
+    // fixed longer lines
+    let fixed: Vec<Vec<&str>> = vec![
+        vec!["Comma", "Lambda", "Name", "Equal", "Lambda", "Colon", "Int", "Colon", "Name", "Newline"],
+        vec!["Name", "Comma", "Lambda", "Name", "Equal", "Lambda", "Colon", "Int", "Colon", "Name", "Colon", "Newline"],
+        vec!["Lbrace", "Name", "Colon", "Name", "Rbrace", "Colon", "Newline"],
+        vec!["Lbrace", "Lambda", "Colon", "Name", "Rbrace", "Colon", "Newline"],
+        vec!["Lpar", "Lsqb", "Colon", "Rsqb", "Rpar", "Newline"],
+        vec!["Name", "Lsqb", "Name", "Comma", "Name", "Rsqb", "Equal", "Name", "Newline"],
+        vec!["Name", "Lsqb", "Name", "Colon", "Name", "Equal", "Name", "Rsqb", "Newline", "Equal"],
+        vec!["Name", "Dot", "Name", "Equal", "Name", "Newline"],
+    ];
+    seqs.extend(fixed);
+    for sq in &seqs {
+        check("Match", sq, true, ref_match(sq), &mut bad);
+        check("Type", sq, true, ref_type(sq), &mut bad);
+    }
+    for sq in seqs.iter().take(100) {
+        check("Case", sq, true, ref_match(sq), &mut bad);
+        check("Match", sq, false, false, &mut bad);
+        check("Type", sq, false, false, &mut bad);
+    }
+    cx.floor(rule, 1);
+    if bad.is_empty() {
+        for _ in 0..n {
+            cx.ok_trivial(rule);
+        }
+        cx.ok(rule, &format!("{} (soft keyword, following tokens, line position) cases interpreted: every decision equals the reference heuristic", n));
+    } else {
+        cx.fail(rule, &format!("{}/decision", rule), &sk.loc(nx), &format!("the soft-keyword look-ahead decides differently from its reference statement: {}", bad.join("; ")));
+    }
 }
 
 /// C01.S2: look-ahead loops with a bracket-depth counter.
